@@ -252,8 +252,7 @@ func (l c14) Exec(env *core.Env) *core.Result {
 			res.Probe("multi_chunk_write")
 		}
 	}
-	sim := rt.New(rt.Config{Tape: p.Tape, Faults: p.Faults, KeepLog: env.KeepLog, Root: env.Dir, Observer: obs, MaxSteps: 3000})
-	rt.Cur = sim
+	sim := core.NewSim(env, obs, 3000)
 	defer func() { rt.Cur = nil }()
 
 	var shared *crl.FileCache
